@@ -3,7 +3,7 @@
 from vlib.props import boxlevel as _b
 
 PROP = "C06"
-META = {"level": "exploration", "rule": _b.RULES[PROP]}
+META = {"level": "exploration", "rule": _b.RULES[PROP], "exhaustive_part": "every instantiated tuple of the small scope for all 21 types"}
 
 
 def jobs(tier):
